@@ -61,6 +61,8 @@ def rule_r1_r2(ctx: Ctx) -> None:
         ("ns.sub.B", (2, 0), [A, B20, Blow], "DataTypeCollisionError"),
         ("ns.sub.b", (1, 0), [A, B10, B11], "DataTypeNameCollisionError"),
         ("NS.SUB.B", (1, 1), [A, B10, B11], "DataTypeNameCollisionError"),
+        ("ns.SUB.B", (1, 1), [A, B10, B11], "DataTypeNameCollisionError"),
+        ("Ns.sub.B", (1, 0), [A, B10, B11], "DataTypeNameCollisionError"),
         ("ns.sub.b", (2, 0), [A, Blow], Blow),
     ]
     bad_table, bad_read, bad_vis, bad_cls = [], [], [], []
@@ -111,13 +113,28 @@ def rule_r1_r2(ctx: Ctx) -> None:
     bad = []
     X = R.ADef(w, "ns.B", 1, 0)
     Y = R.ADef(w, "B", 1, 0, root="/rootless")
-    for ref, lookups, want in (("B", [A, B10, X, O], B10), ("B", [A, X, O], "UndefinedDataTypeError"), ("sub.B", [A, B10], "UndefinedDataTypeError")):
+    Bns = R.ADef(w, "ns.SUB.B", 1, 0, root="/elsewhere")  # the *namespace* differs from the referrer's by letter case only
+    Bns2 = R.ADef(w, "NS.sub.B", 1, 0, root="/elsewhere2")
+    rel_cases = (
+        ("B", [A, B10, X, O], B10),
+        ("B", [A, X, O], "UndefinedDataTypeError"),
+        ("sub.B", [A, B10], "UndefinedDataTypeError"),
+        # letter case, relative references: the completed full name is what must match exactly - in the short name and in
+        # every namespace component
+        ("b", [A, B10, O], "DataTypeNameCollisionError"),
+        ("B", [A, Bns, O], "DataTypeNameCollisionError"),
+        ("B", [A, Bns2, X], "DataTypeNameCollisionError"),
+        ("B", [A, Bns, B10], "DataTypeCollisionError"),
+    )
+    for ref, lookups, want in rel_cases:
         del w.log[:]
         for d in w.defs:
             d.__dict__["composite_type"] = None
         o = R.resolve(ctx, A, lookups, ref, 1, 0)
         ctx.count()
         got = o["raised"] or getattr(o["result"], "label", o["result"])
+        if isinstance(want, str) and o["raised"] and _is_sub(ctx, o["raised"], want):
+            continue
         if got != (want if isinstance(want, str) else want.label):
             bad.append({"reference": ref, "referrer": A.label, "lookup": [d.label for d in lookups], "found": got, "expected": want if isinstance(want, str) else want.label})
     ctx.check(not bad, fn.short, "relative names resolve in the referrer's namespace", "relative references are resolved in the referring definition's own namespace, nowhere else", fn.where(), bad)
